@@ -3,6 +3,10 @@
 import json
 
 ARMED = {
+ "C11": ("must-hold lockset dataflow per lock class (access-path identity), shard-selector provenance for the index read-modify-write, critical-section continuity between check and act, acquire/release path search",
+         "Static decision (a lockset argument holds for every schedule) of necessary conditions of 'concurrent acknowledged mutations are never lost': a body's index read-modify-write is covered by the shard mutex chosen by that same body label (R11.1); stores into shared DAG/repo/id-map/branch-head/counter/split state happen with the owning mutex write-held (R11.2); the uuid membership test and insertion share one critical section and allocators read their counters under their lock (R11.3); versioned put/delete are single transactions (R11.4); every struct-field mutex acquired is released on all return paths (R11.5). Three genuine findings on the tree are listed as known findings (MergeLabels / RenumberLabels index RMW unlocked; newVersion links a child under a read lock). Level 'other': annotation and neuronjson element edits have no lock at all in the code (so no lock rule can be stated for them); linearizability of outcomes is not decided.",
+         "Lock identity by access path / field name (no pointer analysis); start-up loaders and RPC-only surgery are exceptions with reasons.",
+         "DESIGN.md §2 C11"),
  "C06": ("component-sequence extraction of key constructors vs linear-form regions of key parsers; constant-table distinctness; persist/lock/membership checks of id allocation; borrowed-buffer escape analysis",
          "Static decision of necessary conditions of 'storage keys isolate instances, data and versions': every key constructor yields [prefix][instance][tkey][version][client][marker] (prefix constructors a prefix), min/max version keys use the extreme ids/markers, every parser and rewriter addresses the same regions, ids are 4-byte big-endian (R6.1); TKey class constants are pairwise distinct per data type (R6.3); instance ids are tested against the live set, incremented under idMutex and persisted afterwards (R6.4); the instance key range is [prefix‖id, prefix‖(id+1)) (R6.5); iterator-owned key buffers are never retained by a write batch (R6.6); the versioned scanner's bounds are instance-scoped context keys tested for every key (R6.7). Level 'other': injectivity for datum keys containing terminator bytes and history-level isolation are not decided; id+1 wrap-around at 0xFFFFFFFF is not modelled.",
          "Trusts go/ssa; integer wrap-around not modelled.",
